@@ -85,10 +85,313 @@ int Explorer<FSM>::replay(const std::string& enc) {
 	return E::R().total ? 1 : 0;
 }
 
-template <typename FSM> void Explorer<FSM>::inCallbackMore(int, int, int, void*) {}
-template <typename FSM> void Explorer<FSM>::liveChecks(Runner&, Exec&) {}
+template <typename FSM> void Explorer<FSM>::inCallbackMore(int kind, int state, int meth, void* control) {
+	if ((props & P_C13) && kind == E::CB_GUARD && cur && cur->step.script.empty() && cur->step.op.type == OP_IMMEDIATE) {
+		auto& c = *static_cast<typename E::GuardControl*>(control);
+		if (c.currentTransitions().count() == 0 && !c._cancelled && guardSnaps.size() < 64) {
+			GuardSnap g; g.state = state; g.meth = meth; g.bits.assign(N, 0);
+			for (int ci = 0; ci < VT_COUNTS.compo; ++ci) g.req.push_back(c._core.registry.compoRequested[ci] == hfsm2::INVALID_PRONG ? -1 : (int) c._core.registry.compoRequested[ci]);
+			for (int s = 0; s < N; ++s) g.bits[s] = (uint8_t) ((c.isPendingEnter((hfsm2::StateID) s) ? 1 : 0) | (c.isPendingExit((hfsm2::StateID) s) ? 2 : 0) | (c.isPendingChange((hfsm2::StateID) s) ? 4 : 0));
+			guardSnaps.push_back(g);
+		}
+	}
+}
+template <typename FSM> void Explorer<FSM>::liveChecks(Runner& r, Exec& x) {
+	pendingQuiescent.clear();
+	if ((props & P_C13) && x.activatedAfter) {
+		pendingQuiescent.assign(N, 0);
+		for (int s = 0; s < N; ++s)
+			pendingQuiescent[s] = (uint8_t) ((r.fsm->isPendingEnter((hfsm2::StateID) s) ? 1 : 0) | (r.fsm->isPendingExit((hfsm2::StateID) s) ? 2 : 0) | (r.fsm->isPendingChange((hfsm2::StateID) s) ? 4 : 0));
+	}
+}
 template <typename FSM> void Explorer<FSM>::afterExec(const Node& node, Exec& x) {
 	if (props & P_C02) checkC02(node, x);
+	if (props & P_C05) checkC05(node, x);
+	if (props & P_C04) checkC04(node, x);
+	if (props & P_C13) checkC13(node, x);
+}
+
+// ---- rounds of one processing call, reconstructed from the guard callbacks ---------------------------------
+template <typename FSM>
+std::vector<typename Explorer<FSM>::Round> Explorer<FSM>::rounds(const Exec& x) const {
+	std::vector<Round> out;
+	bool sawCancel = false, sawEntry = false;
+	std::set<std::pair<int, int>> seen;
+	for (size_t i = x.stepBegin; i < x.stepEnd; ++i) {
+		const TraceEv& e = x.trace[i];
+		if (e.meth == E_CANCEL) { if (!out.empty()) out.back().cancelled = true; sawCancel = true; continue; }
+		if (e.meth != M_ENTRY_GUARD && e.meth != M_EXIT_GUARD) continue;
+		if (e.layer != 0) { if (!out.empty()) out.back().last = i; continue; }
+		const bool fresh = out.empty() || (sawCancel && e.b == 0) || (e.meth == M_EXIT_GUARD && sawEntry) || seen.count({e.state, e.meth});
+		if (fresh) { out.push_back(Round{i, i, false, e.a}); sawCancel = false; sawEntry = false; seen.clear(); }
+		out.back().last = i;
+		seen.insert({e.state, e.meth});
+		if (e.meth == M_ENTRY_GUARD) sawEntry = true;
+	}
+	return out;
+}
+
+// ---- C04: guards first, veto is atomic, rounds bounded --------------------------------------------------------
+template <typename FSM>
+void Explorer<FSM>::checkC04(const Node& node, Exec& x) {
+	const Op& op = x.step.op;
+	const bool processing = op.type == OP_IMMEDIATE || op.type == OP_BATCH || op.type == OP_UPDATE || op.type == OP_REACT;
+	const bool initial = op.type == OP_CONSTRUCT || op.type == OP_ENTER;
+	if (!processing && !initial) return;
+	if (initial && !x.activatedAfter) return;
+	const std::vector<Round> rs = rounds(x);
+	++compared;
+	// (3) bounded rounds, queue drained
+	// the first activation consults the entry guards once before any substitution round
+	if ((int) rs.size() > VT_SUBLIMIT + (initial ? 1 : 0)) { violation("C04", "rounds/over-limit", "processing ran " + str(rs.size()) + " guard rounds, substitution limit is " + str(VT_SUBLIMIT), x); return; }
+	if (x.keyAfter.find("|Q") != std::string::npos) ++counters["c04_requests_left_queued_at_limit_observed"];
+	// (1) guards precede every change
+	size_t lastGuard = 0, firstLife = x.stepEnd;
+	bool anyGuard = false;
+	for (size_t i = x.stepBegin; i < x.stepEnd; ++i) {
+		const TraceEv& e = x.trace[i];
+		if (e.meth == M_ENTRY_GUARD || e.meth == M_EXIT_GUARD) { lastGuard = i; anyGuard = true; }
+		if ((e.meth == M_ENTER || e.meth == M_EXIT || e.meth == M_REENTER) && e.layer == 0 && firstLife == x.stepEnd) firstLife = i;
+	}
+	if (anyGuard && firstLife < lastGuard) { violation("C04", "order/lifecycle-before-guard", "a lifecycle callback ran before the last guard of the call", x); return; }
+	for (const Round& r : rs) {
+		bool entrySeen = false;
+		for (size_t i = r.first; i <= r.last; ++i) {
+			const TraceEv& e = x.trace[i];
+			if (e.layer) continue;
+			if (e.meth == M_ENTRY_GUARD) entrySeen = true;
+			if (e.meth == M_EXIT_GUARD && entrySeen) { violation("C04", "order/exit-guard-after-entry-guard", "within one round an exit guard ran after an entry guard", x); return; }
+		}
+	}
+	// witness for the known ortho-root finding: a request addressed to the root of a machine whose root is orthogonal,
+	// mixed with other requests in the same call
+	int nReq = 0; bool rootReq = false;
+	for (size_t i = x.stepBegin; i < x.stepEnd; ++i) if (x.trace[i].meth == E_REQUEST && x.trace[i].a != T_SCHEDULE) { ++nReq; if (x.trace[i].b == 0) rootReq = true; }
+	const std::string gmw = (E::isOrtho(0) && rootReq && nReq >= 2) ? "/root-request-mixed-on-orthogonal-root" : "";
+	auto guarded = [&](int s, int meth) {
+		for (const Round& r : rs) {
+			if (r.cancelled) continue;
+			for (size_t i = r.first; i <= r.last; ++i) {
+				const TraceEv& e = x.trace[i];
+				if (e.layer == 0 && e.state == s && e.meth == meth && (initial || e.a > 0)) return true;
+			}
+		}
+		return false;
+	};
+	for (size_t i = x.stepBegin; i < x.stepEnd; ++i) {
+		const TraceEv& e = x.trace[i];
+		if (e.layer || E::D(e.state < 0 ? 0 : e.state).lite) continue;
+		if (e.meth == M_EXIT && !initial && !guarded(e.state, M_EXIT_GUARD)) { violation("C04", "guard-missing/exit" + gmw, "S" + str(e.state) + " was exited without its exit guard having been consulted in an approved round", x); return; }
+		if (e.meth == M_ENTER && !guarded(e.state, M_ENTRY_GUARD)) { violation("C04", "guard-missing/enter" + gmw, "S" + str(e.state) + " was entered without its entry guard having been consulted in an approved round", x); return; }
+		if (e.meth == M_REENTER && (!guarded(e.state, M_ENTRY_GUARD) || !guarded(e.state, M_EXIT_GUARD))) { violation("C04", "guard-missing/reenter" + gmw, "S" + str(e.state) + " was re-entered without both guards having been consulted in an approved round", x); return; }
+	}
+	// no change at all when every round was vetoed
+	bool anyApproved = false;
+	for (const Round& r : rs) anyApproved = anyApproved || !r.cancelled;
+	if (!rs.empty() && !anyApproved && firstLife != x.stepEnd) { violation("C04", "veto/lifecycle-after-veto", "every round was cancelled, yet lifecycle callbacks ran", x); return; }
+	// (2) veto atomicity, differential: "X, vetoed, substitute Y" == "Y";  "X vetoed" == nothing (scheduling excepted)
+	if (op.type != OP_IMMEDIATE || op.r[0].kind == T_SCHEDULE || x.step.script.size() != 1) return;
+	const Choice& ch = x.step.script[0];
+	if ((ch.key.meth != M_ENTRY_GUARD && ch.key.meth != M_EXIT_GUARD) || ch.key.occ >= 0xFFFE) return;
+	const Action& a = E::G().menuGuard[ch.alt];
+	if (a.type != A_CANCEL && a.type != A_CANCEL_REQ) return;
+	if (rs.empty() || !rs[0].cancelled) return;	 // the deviating guard was not reached
+	if (x.keyAfter.find("|Q") != std::string::npos) return;  // the limit was hit before the substitute could be processed
+	auto lifeSeq = [](const Exec& y) { std::vector<std::pair<int, int>> v; for (size_t i = y.stepBegin; i < y.stepEnd; ++i) { const TraceEv& e = y.trace[i]; if (e.layer == 0 && (e.meth == M_ENTER || e.meth == M_EXIT || e.meth == M_REENTER)) v.push_back({e.state, e.meth}); } return v; };
+	auto seqText = [](const std::vector<std::pair<int, int>>& v) { std::string t; for (auto& p : v) t += " S" + str(p.first) + "." + METH_NAMES[p.second]; return t; };
+	++counters["c04_veto_differentials"];
+	if (a.type == A_CANCEL || a.a == T_SCHEDULE) {
+		bool sameActive = x.after.active == x.before.active;
+		bool sameRes = x.after.resumable == x.before.resumable;
+		if (a.type == A_CANCEL_REQ) {  // substitute is a scheduling request: resumable of that region may change
+			sameRes = true;
+			auto nearestCompo = [](int s) { int p = E::D(s).parent; while (p >= 0 && !E::isCompo(p)) p = E::D(p).parent; return p; };
+			for (int s = 0; s < N; ++s) if (x.after.resumable[s] != x.before.resumable[s] && nearestCompo(s) != nearestCompo(a.b)) sameRes = false;
+		}
+		if (!sameActive) violation("C04", "veto/config-changed", "a vetoed request changed the active configuration", x);
+		else if (!sameRes) violation("C04", "veto/resumable-changed", "a vetoed request changed resumable sub-states", x);
+		else if (!lifeSeq(x).empty()) violation("C04", "veto/lifecycle", "a vetoed request ran lifecycle callbacks:" + seqText(lifeSeq(x)), x);
+		return;
+	}
+	// reference: the substitute issued on its own from the same state
+	Exec y;
+	Exec* saved = cur;
+	Op oy; oy.type = OP_IMMEDIATE; oy.n = 1; oy.r[0] = Req{(int8_t) a.a, (int16_t) a.b};
+	const unsigned savedProps = props;
+	props = 0;
+	run(node, Step{oy, {}}, y);
+	props = savedProps;
+	cur = saved;
+	--transitions;
+	if (y.after.active != x.after.active) { violation("C04", "veto/substitute-config", "'" + op.text() + " vetoed, " + KIND_NAMES[a.a] + "(" + str(a.b) + ") substituted' ends in a different configuration than '" + oy.text() + "' alone", x); return; }
+	if (y.after.resumable != x.after.resumable) { violation("C04", "veto/substitute-resumable", "'" + op.text() + " vetoed, " + KIND_NAMES[a.a] + "(" + str(a.b) + ") substituted' ends with different resumable sub-states than '" + oy.text() + "' alone", x); return; }
+	if (lifeSeq(y) != lifeSeq(x)) { violation("C04", "veto/substitute-lifecycle", "'" + op.text() + " vetoed, " + KIND_NAMES[a.a] + "(" + str(a.b) + ") substituted' runs" + seqText(lifeSeq(x)) + " but '" + oy.text() + "' alone runs" + seqText(lifeSeq(y)), x); return; }
+}
+
+// ---- C13: activity / resumable / pending queries agree with each other and with the outcome ---------------------
+template <typename FSM>
+void Explorer<FSM>::checkC13(const Node&, Exec& x) {
+	const Op& op = x.step.op;
+	if (!x.activatedAfter) {
+		for (int s = 0; s < N; ++s) if (x.after.activeSub[s] >= 0) { violation("C13", "quiescent/active-sub-inactive-machine", "activeSubState(S" + str(s) + ") valid on an inactive machine", x); return; }
+		return;
+	}
+	const Snap& a = x.after;
+	++compared;
+	for (int r = 0; r < N; ++r) {
+		if (!E::isCompo(r)) continue;
+		int act = -1, nres = 0;
+		for (int p = 0; p < E::D(r).width; ++p) { if (a.active[E::child(r, p)]) act = p; if (a.resumable[E::child(r, p)]) ++nres; }
+		if (a.active[r] ? a.activeSub[r] != act : a.activeSub[r] != -1) { violation("C13", "quiescent/active-sub", "activeSubState(S" + str(r) + ")=" + str(a.activeSub[r]) + " while " + (a.active[r] ? "sub-state #" + str(act) + " is active" : "the region is inactive"), x); return; }
+		if (nres > 1) { violation("C13", "quiescent/two-resumable", "two sub-states of S" + str(r) + " reported resumable", x); return; }
+	}
+	// while nothing is pending all three pending queries are false
+	if (!pendingQuiescent.empty()) {
+		for (int s = 0; s < N; ++s)
+			if (pendingQuiescent[s]) {
+				const int bits = pendingQuiescent[s];
+				violation("C13", std::string("pending-quiescent/") + ((bits & 1) ? "enter" : (bits & 2) ? "exit" : "change"), std::string("with nothing pending ") + ((bits & 1) ? "isPendingEnter" : (bits & 2) ? "isPendingExit" : "isPendingChange") + "(S" + str(s) + ") is true", x);
+				return;
+			}
+	}
+	// the sub-state reported resumable is the one a subsequent resume of that region activates
+	auto hasCompoAncestor = [](int s) { for (int p = E::D(s).parent; p >= 0; p = E::D(p).parent) if (E::isCompo(p)) return true; return s == 0; };
+	if (op.type == OP_IMMEDIATE && op.r[0].kind == T_RESUME && x.step.script.empty() && E::isCompo(op.r[0].state) && x.activatedBefore && hasCompoAncestor(op.r[0].state)) {
+		const int r = op.r[0].state;
+		int rep = 0;
+		for (int p = 0; p < E::D(r).width; ++p) if (x.before.resumable[E::child(r, p)]) rep = p;
+		bool vetoed = false;
+		for (size_t i = x.stepBegin; i < x.stepEnd; ++i) if (x.trace[i].meth == E_CANCEL) vetoed = true;
+		if (!vetoed && (!a.active[r] || a.activeSub[r] != rep)) { violation("C13", "resume/not-the-reported-one", "immediateResume(S" + str(r) + ") activated sub-state #" + str(a.activeSub[r]) + " but #" + str(rep) + " was reported resumable (else the first)", x); return; }
+	}
+	// inside guards of a single pending request: isPendingEnter/Exit/Change == what the approved round then does
+	if (op.type == OP_IMMEDIATE && op.r[0].kind != T_SCHEDULE && x.step.script.empty() && !guardSnaps.empty()) {
+		std::vector<uint8_t> enters(N, 0), exits(N, 0);
+		bool vetoed = false;
+		for (size_t i = x.stepBegin; i < x.stepEnd; ++i) {
+			const TraceEv& e = x.trace[i];
+			if (e.meth == E_CANCEL) vetoed = true;
+			if (e.layer) continue;
+			if (e.meth == M_ENTER) enters[e.state] = 1;
+			if (e.meth == M_EXIT) exits[e.state] = 1;
+		}
+		if (vetoed) return;
+		std::set<std::string> reported;
+		auto nearestCompo = [](int s) { int p = E::D(s).parent; while (p >= 0 && !E::isCompo(p)) p = E::D(p).parent; return p; };
+		for (const GuardSnap& g : guardSnaps) {
+			for (int s = 0; s < N; ++s) {
+				if (!E::named(s) || E::D(s).lite) continue;
+				const bool pe = g.bits[s] & 1, px = g.bits[s] & 2, pc = g.bits[s] & 4;
+				const int A = nearestCompo(s);
+				const int reqA = A >= 0 ? g.req[E::D(A).compo] : -1;
+				const int actA = A >= 0 ? x.before.rawActive[E::D(A).compo] : -1;
+				for (int q = 0; q < 3; ++q) {
+					const char* what = q == 0 ? "isPendingEnter" : q == 1 ? "isPendingExit" : "isPendingChange";
+					const bool got = q == 0 ? pe : q == 1 ? px : pc;
+					const bool want = q == 0 ? enters[s] != 0 : q == 1 ? exits[s] != 0 : (enters[s] || exits[s]);
+					if (got == want) continue;
+					std::string w = "other";
+					if (got && !want) {
+						if (q == 2 && A >= 0 && reqA >= 0 && reqA != actA) w = "answers-for-the-region-not-the-state";
+						else if (q == 0 && A >= 0 && !x.after.active[A]) w = "stale-target-in-a-region-that-is-not-active-afterwards";
+					} else {
+						// the state is entered / exited although its own region (nearest composite ancestor) does not switch
+						if (A >= 0 && (reqA < 0 || reqA == actA)) w = "not-caused-by-its-own-region";
+					}
+					const std::string fp = std::string("pending-in-guard/") + what + "/" + (got ? "true-but-not-happening" : "false-but-happens") + "/" + w;
+					if (!reported.insert(fp).second) continue;
+					violation("C13", fp, std::string("inside S") + str(g.state) + "." + METH_NAMES[g.meth] + " evaluating " + op.text() + ": " + what + "(S" + str(s) + ")=" + (got ? "true" : "false") +
+							  " but the approved round " + (want ? "does" : "does not") + (q == 0 ? " enter" : q == 1 ? " exit" : " enter or exit") + " S" + str(s), x);
+				}
+			}
+		}
+		if (!reported.empty()) return;
+		++counters["c13_guard_snapshots_compared"];
+	}
+}
+
+// ---- C05: update / react / query reach exactly the active states in the documented order -------------------
+template <typename FSM>
+void Explorer<FSM>::checkC05(const Node&, Exec& x) {
+	const Op& op = x.step.op;
+	if (!x.activatedBefore) return;
+	const bool isUpdate = op.type == OP_UPDATE || op.type == OP_BATCH || (op.type == OP_IMMEDIATE && op.r[0].kind == T_SCHEDULE);
+	if (!(isUpdate || op.type == OP_REACT || op.type == OP_QUERY)) return;
+	struct Ev3 { int state, meth, layer; bool operator==(const Ev3& o) const { return state == o.state && meth == o.meth && layer == o.layer; } };
+	const Snap& b = x.before;
+	// expected visiting order of one pass
+	std::function<void(int, int, bool, bool, std::vector<Ev3>&)> visit = [&](int s, int meth, bool headFirst, bool injectedFirst, std::vector<Ev3>& out) {
+		auto emit = [&]() {
+			if (!E::named(s)) return;
+			const StateDesc& d = E::D(s);
+			if (d.lite) { if (meth == M_UPDATE) out.push_back(Ev3{s, meth, 0}); return; }
+			if (d.inject && injectedFirst) { out.push_back(Ev3{s, meth, 1}); out.push_back(Ev3{s, meth, 2}); }
+			out.push_back(Ev3{s, meth, 0});
+			if (d.inject && !injectedFirst) { out.push_back(Ev3{s, meth, 2}); out.push_back(Ev3{s, meth, 1}); }
+		};
+		if (headFirst) emit();
+		if (E::isOrtho(s)) { for (int p = 0; p < E::D(s).width; ++p) visit(E::child(s, p), meth, headFirst, injectedFirst, out); }
+		else if (E::isCompo(s)) { if (b.activeSub[s] >= 0) visit(E::child(s, b.activeSub[s]), meth, headFirst, injectedFirst, out); }
+		if (!headFirst) emit();
+	};
+	// own and injected handlers of one state in one pass: the statement fixes "injected before own on the way down, after it on
+	// the way up" but not the order among several injected bases, and nothing for query: normalise such runs
+	auto normalise = [](std::vector<Ev3>& v, bool includeOwn) {
+		size_t i = 0;
+		while (i < v.size()) {
+			size_t j = i;
+			while (j < v.size() && v[j].state == v[i].state && v[j].meth == v[i].meth && (includeOwn || v[j].layer != 0)) ++j;
+			if (j > i + 1) std::sort(v.begin() + (long) i, v.begin() + (long) j, [](const Ev3& a, const Ev3& c) { return a.layer < c.layer; });
+			i = j > i ? j : i + 1;
+		}
+	};
+	auto actual = [&](int meth) {
+		std::vector<Ev3> v;
+		for (size_t i = x.stepBegin; i < x.stepEnd; ++i) if (x.trace[i].meth == meth) v.push_back(Ev3{x.trace[i].state, meth, x.trace[i].layer});
+		return v;
+	};
+	auto consumer = [&](int meth) {	 // first state that consumed during this pass (-1 none)
+		for (size_t i = x.stepBegin; i < x.stepEnd; ++i) if (x.trace[i].meth == E_CONSUME && x.trace[i].a == meth) return (int) x.trace[i].state;
+		return -1;
+	};
+	auto text = [](const std::vector<Ev3>& v) { std::string t; for (const Ev3& e : v) t += " S" + str(e.state) + (e.layer ? "@inj" + str(e.layer) : ""); return t; };
+	auto checkPass = [&](int meth, bool headFirst, bool injectedFirst, bool isQuery, const char* what) -> bool {
+		std::vector<Ev3> expFull, got = actual(meth);
+		visit(0, meth, headFirst, injectedFirst, expFull);
+		std::vector<Ev3> exp = expFull;
+		const int c = consumer(meth);
+		if (c >= 0) {
+			// the pass stops as soon as a state consumes: nothing after that state's handlers
+			size_t last = 0; bool found = false;
+			for (size_t i = 0; i < exp.size(); ++i) if (exp[i].state == c) { last = i; found = true; }
+			if (found) exp.resize(last + 1);
+		}
+		normalise(exp, isQuery); normalise(got, isQuery); normalise(expFull, isQuery);
+		++compared;
+		if (got == exp) return true;
+		std::string fp = std::string(what) + "/order";
+		if (c >= 0 && got.size() > exp.size() && std::equal(exp.begin(), exp.end(), got.begin())) fp = std::string(what) + "/delivered-after-consume";
+		else if (got.size() != exp.size()) fp = std::string(what) + "/set-of-states";
+		violation("C05", fp, std::string(METH_NAMES[meth]) + " pass of " + op.text() + (c >= 0 ? " (S" + str(c) + " consumes)" : "") + " visited:" + text(got) + "  expected:" + text(exp), x);
+		return false;
+	};
+	const bool bottomUp = VT_BOTTOM_UP;
+	if (isUpdate) {
+		if (!checkPass(M_PRE_UPDATE, true, true, false, "update")) return;
+		if (!checkPass(M_UPDATE, true, true, false, "update")) return;
+		if (!checkPass(M_POST_UPDATE, false, false, false, "update")) return;
+	} else if (op.type == OP_REACT) {
+		if (!checkPass(M_PRE_REACT, !bottomUp, true, false, "react")) return;
+		if (!checkPass(M_REACT, !bottomUp, true, false, "react")) return;
+		if (!checkPass(M_POST_REACT, bottomUp, false, false, "react")) return;
+	} else {
+		if (!checkPass(M_QUERY, !bottomUp, true, true, "query")) return;
+		if (x.keyAfter != x.keyBefore) { violation("C05", "query/changed-state", "query() changed the state", x); return; }
+		for (size_t i = x.stepBegin; i < x.stepEnd; ++i) {
+			const int m = x.trace[i].meth;
+			if (m != M_QUERY && m != E_CONSUME && m != E_API) { violation("C05", "query/other-callback", std::string("query() invoked ") + METH_NAMES[m], x); return; }
+		}
+	}
 }
 
 // ---- C02: reference semantics on every edge ----------------------------------------------------------
